@@ -66,7 +66,7 @@ class Collector(object):
 
     def violation(self, name, text, inputs):
         # at most 3 per violation name, so that a known class never crowds out a different violation
-        if sum(1 for v in self.violations if v["name"] == name) < 3:
+        if sum(1 for v in self.violations if v["name"] == name) < int(__import__("os").environ.get("VIOL_CAP", "3")):
             self.violations.append(dict(name=name, text=text, inputs=inputs))
 
     def result(self):
